@@ -970,7 +970,207 @@ def gen_schema_keys(repo):
     return text
 
 
+# ------------------------------------------------------------------------------------------------
+# models/molecule.py: what Molecule.__init__ does to the geometry, and how get_hash / __eq__ read it (AST, fail closed)
+# -> Gen/MolGeomInit.v
+
+def gen_mol_init(repo):
+    path = os.path.join(repo, "qcelemental", "models", "molecule.py")
+    with open(path) as fh:
+        tree = ast.parse(fh.read())
+    consts = {}
+    for st in tree.body:
+        if isinstance(st, ast.Assign) and len(st.targets) == 1 and isinstance(st.targets[0], ast.Name) \
+                and st.targets[0].id in ("GEOMETRY_NOISE", "MASS_NOISE", "CHARGE_NOISE"):
+            if not (isinstance(st.value, ast.Constant) and type(st.value.value) is int):
+                fail(f"molecule.py: {st.targets[0].id} is not an integer literal")
+            consts[st.targets[0].id] = st.value.value
+    if "GEOMETRY_NOISE" not in consts:
+        fail("molecule.py: GEOMETRY_NOISE not found")
+    cls = next((n for n in tree.body if isinstance(n, ast.ClassDef) and n.name == "Molecule"), None)
+    if cls is None:
+        fail("molecule.py: class Molecule not found")
+    fns = {n.name: n for n in cls.body if isinstance(n, ast.FunctionDef)}
+    for need in ("__init__", "get_hash", "__eq__"):
+        if need not in fns:
+            fail(f"Molecule.{need} not found")
+    init = fns["__init__"]
+    args = [a.arg for a in init.args.args]
+    dflt = [_src(d) for d in init.args.defaults]
+    if args != ["self", "orient", "validate"] or dflt != ["False", "None"] or init.args.kwarg is None or init.args.kwarg.arg != "kwargs":
+        fail(f"Molecule.__init__ signature changed: {args} {dflt}")
+    body = [st for st in init.body if not (isinstance(st, ast.Expr) and isinstance(st.value, ast.Constant))]
+    src = [_src(st) for st in body]
+    want_head = ["if validate is None:\n    validate = not kwargs.get('validated', False)",
+                 "geometry_prep = kwargs.pop('_geometry_prep', False)",
+                 "geometry_noise = kwargs.pop('geometry_noise', GEOMETRY_NOISE)"]
+    if src[:3] != want_head:
+        fail(f"Molecule.__init__: the validate / geometry_prep / geometry_noise preamble changed: {src[:3]}")
+    last = body[-1]
+    want_last = ("if orient:\n    values['geometry'] = float_prep(self._orient_molecule_internal(), geometry_noise)\n"
+                 "elif validate or geometry_prep:\n    values['geometry'] = float_prep(values['geometry'], geometry_noise)")
+    if _src(last) != want_last:
+        fail(f"Molecule.__init__: the geometry branch changed: {_src(last)}")
+    # nothing else in __init__ may assign the stored geometry, `validate` only ever becomes True inside `if validate:`
+    for st in body[3:-1]:
+        for node in ast.walk(st):
+            if isinstance(node, (ast.Assign, ast.AugAssign)):
+                tgts = node.targets if isinstance(node, ast.Assign) else [node.target]
+                for t in tgts:
+                    ts = _src(t)
+                    if "geometry" in ts and ts.startswith(("values", "self")):
+                        fail(f"Molecule.__init__ assigns the geometry elsewhere: {_src(node)}")
+                    if ts in ("geometry_noise", "geometry_prep", "orient"):
+                        fail(f"Molecule.__init__ reassigns {ts}")
+                    if ts == "validate" and _src(node) != "validate = True":
+                        fail(f"Molecule.__init__ reassigns validate: {_src(node)}")
+    vblock = next((st for st in body[3:-1] if isinstance(st, ast.If) and _src(st.test) == "validate"), None)
+    if vblock is None or "validate = True" not in [_src(x) for x in vblock.body] or "kwargs['validated'] = True" not in [_src(x) for x in vblock.body]:
+        fail("Molecule.__init__: the validating block changed shape")
+    # float_prep: round, then flush
+    fp = next((n for n in tree.body if isinstance(n, ast.FunctionDef) and n.name == "float_prep"), None)
+    if fp is None or [a.arg for a in fp.args.args] != ["array", "around"]:
+        fail("float_prep(array, around) not found")
+    fbody = [st for st in fp.body if not (isinstance(st, ast.Expr) and isinstance(st.value, ast.Constant))]
+    if not (len(fbody) == 2 and isinstance(fbody[0], ast.If) and _src(fbody[0].test) == "isinstance(array, (list, np.ndarray))"
+            and [_src(x) for x in fbody[0].body] == ["array = np.around(array, around)", "array[np.abs(array) < 5 ** (-(around + 1))] = 0"]
+            and _src(fbody[1]) == "return array"):
+        fail("float_prep: the array branch changed shape")
+    # get_hash: the geometry is rounded with GEOMETRY_NOISE before it is hashed
+    gh = fns["get_hash"]
+    loop = next((st for st in gh.body if isinstance(st, ast.For) and _src(st.iter) == "self.hash_fields"), None)
+    if loop is None or _src(loop.target) != "field" or _src(loop.body[0]) != "data = getattr(self, field)":
+        fail("get_hash: loop over hash_fields changed shape")
+    br = loop.body[1]
+    if not (isinstance(br, ast.If) and _src(br.test) == "field == 'geometry'" and [_src(x) for x in br.body] == ["data = float_prep(data, GEOMETRY_NOISE)"]):
+        fail(f"get_hash: the geometry is no longer rounded with GEOMETRY_NOISE before hashing: {_src(br)[:200]}")
+    hf = next((st for st in cls.body if isinstance(st, ast.Assign) and _src(st.targets[0]) == "hash_fields"), None)
+    if hf is None:
+        for st in cls.body:
+            if isinstance(st, ast.FunctionDef) and st.name == "hash_fields":
+                hf = st
+    if hf is None or "'geometry'" not in _src(hf):
+        fail("Molecule.hash_fields no longer lists the geometry")
+    # __eq__: dictionaries are rebuilt with Molecule(orient=False, **other), then the hashes are compared
+    eq = fns["__eq__"]
+    esrc = _src(eq)
+    if "other = Molecule(orient=False, **other)" not in esrc or "return self.get_hash() == other.get_hash()" not in esrc:
+        fail("Molecule.__eq__ changed shape")
+    text = f"""(* generated by harness/translate/c09_schema.py from models/molecule.py (AST: GEOMETRY_NOISE, Molecule.__init__, float_prep,
+   get_hash, __eq__); do not edit *)
+From Coq Require Import ZArith Bool.
+Open Scope Z_scope.
+Definition geometry_noise_default : Z := {consts['GEOMETRY_NOISE']}.      (* GEOMETRY_NOISE: kwargs.pop("geometry_noise", GEOMETRY_NOISE) *)
+Definition hash_geometry_noise : Z := {consts['GEOMETRY_NOISE']}.         (* get_hash: float_prep(data, GEOMETRY_NOISE) for field "geometry" *)
+(* `if validate is None: validate = not kwargs.get("validated", False)` *)
+Definition validate_flag (validate_arg : option bool) (validated_in_kwargs : bool) : bool :=
+  match validate_arg with None => negb validated_in_kwargs | Some b => b end.
+Definition noise_of (noise_kw : option Z) : Z := match noise_kw with Some n => n | None => geometry_noise_default end.
+(* what __init__ finally does to the stored geometry *)
+Inductive geom_action := GKeep | GPrep (noise : Z) | GOrientPrep (noise : Z).
+Definition init_geometry_action (orient validate geometry_prep : bool) (noise : Z) : geom_action :=
+  if orient then GOrientPrep noise
+  else if validate || geometry_prep then GPrep noise
+  else GKeep.
+"""
+    return text
+
+
+# ------------------------------------------------------------------------------------------------
+# name / comment: to_schema's default name, the conditional comment, from_schema's optional reads, and what from_arrays
+# (validate_and_fill_units) keeps of them (AST, fail closed) -> Gen/SchemaExtras.v
+
+def gen_schema_extras(repo):
+    def fn_of(rel, name):
+        with open(os.path.join(repo, "qcelemental", "molparse", rel)) as fh:
+            tree = ast.parse(fh.read())
+        f = next((n for n in tree.body if isinstance(n, ast.FunctionDef) and n.name == name), None)
+        if f is None:
+            fail(f"{rel}: {name} not found")
+        return f
+    ts = fn_of("to_schema.py", "to_schema")
+    names = [_src(st) for st in ts.body if isinstance(st, ast.Assign) and _src(st.targets[0]) == "name"]
+    if names != ["name = molrec.get('name', formula_generator(molrec['elem']))"]:
+        fail(f"to_schema: the name default changed: {names}")
+    qc = next((st for st in ast.walk(ts) if isinstance(st, ast.If) and _src(st.test) == "dtype in [1, 2]"), None)
+    if qc is None:
+        fail("to_schema: QCSchema branch not found")
+    nm = [_src(st) for st in qc.body if isinstance(st, ast.Assign) and _src(st.targets[0]) == "molecule['name']"]
+    cm = [st for st in qc.body if isinstance(st, ast.If) and _src(st.test) == "'comment' in molrec"]
+    if nm != ["molecule['name'] = name"] or len(cm) != 1 or cm[0].orelse \
+            or set(_src(x) for x in cm[0].body) != {"molecule['comment'] = molrec['comment']"}:
+        fail("to_schema: name / comment export changed shape")
+    if any("molecule['comment']" in _src(st) for st in qc.body if st is not cm[0]):
+        fail("to_schema: the comment is written outside its `if 'comment' in molrec`")
+    fs = fn_of("from_schema.py", "from_schema")
+    call = next((n for n in ast.walk(fs) if isinstance(n, ast.Call) and _src(n.func) == "from_arrays"), None)
+    if call is None:
+        fail("from_schema: the from_arrays call was not found")
+    kws = {k.arg: _src(k.value) for k in call.keywords}
+    if kws.get("name") != "ms.get('name', None)" or kws.get("comment") != "ms.get('comment', None)":
+        fail(f"from_schema: name / comment are no longer read with ms.get(..., None): {kws.get('name')} / {kws.get('comment')}")
+    for node in ast.walk(fs):
+        if isinstance(node, ast.Assign) and _src(node.targets[0]) in ("molrec['name']", "molrec['comment']"):
+            fail("from_schema overwrites name / comment")
+    fa = fn_of("from_arrays.py", "from_arrays")
+    ucall = next((n for n in ast.walk(fa) if isinstance(n, ast.Call) and _src(n.func) == "validate_and_fill_units"), None)
+    if ucall is None:
+        fail("from_arrays: validate_and_fill_units call not found")
+    ukw = {k.arg: _src(k.value) for k in ucall.keywords}
+    if ukw.get("name") != "name" or ukw.get("comment") != "comment":
+        fail("from_arrays no longer hands name / comment to validate_and_fill_units")
+    for node in ast.walk(fa):
+        if isinstance(node, ast.Assign) and any(_src(t) in ("name", "comment", "processed['name']", "processed['comment']",
+                                                            "molinit['name']", "molinit['comment']") for t in node.targets):
+            fail(f"from_arrays rewrites name / comment: {_src(node)[:200]}")
+    vu = fn_of("from_arrays.py", "validate_and_fill_units")
+    head = [_src(st) for st in vu.body[:3]]
+    if head != ["molinit = {}", "if name is not None:\n    molinit['name'] = name", "if comment is not None:\n    molinit['comment'] = comment"]:
+        fail(f"validate_and_fill_units: name / comment handling changed: {head}")
+    for st in vu.body[3:]:
+        for node in ast.walk(st):
+            if isinstance(node, (ast.Assign, ast.Delete)) and ("molinit['name']" in _src(node) or "molinit['comment']" in _src(node)):
+                fail("validate_and_fill_units touches name / comment again")
+    return """(* generated by harness/translate/c09_schema.py from molparse/to_schema.py, from_schema.py, from_arrays.py (AST); do not edit *)
+From Coq Require Import String.
+(* to_schema: `name = molrec.get("name", formula_generator(molrec["elem"]))`, `molecule["name"] = name` *)
+Definition export_name (name : option string) (formula : string) : option string :=
+  Some (match name with Some n => n | None => formula end).
+(* to_schema: `if "comment" in molrec: molecule["comment"] = molrec["comment"]` *)
+Definition export_comment (comment : option string) : option string := comment.
+(* from_schema: name=ms.get("name", None) -> from_arrays -> validate_and_fill_units: `if name is not None: molinit["name"] = name` *)
+Definition stored_name (name : option string) : option string := match name with Some n => Some n | None => None end.
+Definition stored_comment (comment : option string) : option string := match comment with Some c => Some c | None => None end.
+"""
+
+
+# ------------------------------------------------------------------------------------------------
+# models/types.py: descriptor `TArr kind` says "an ndarray whose entries all have the field's dtype" because TypedArray.validate
+# converts whatever it is handed with np.asarray(v, dtype=cls._dtype) and nothing else (AST guard, fail closed)
+
+def check_typed_array(repo):
+    path = os.path.join(repo, "qcelemental", "models", "types.py")
+    with open(path) as fh:
+        tree = ast.parse(fh.read())
+    cls = next((n for n in tree.body if isinstance(n, ast.ClassDef) and n.name == "TypedArray"), None)
+    if cls is None:
+        fail("types.py: class TypedArray not found")
+    fns = {n.name: n for n in cls.body if isinstance(n, ast.FunctionDef)}
+    want = {"__get_validators__": "yield cls.validate",
+            "validate": "try:\n    v = np.asarray(v, dtype=cls._dtype)\nexcept ValueError:\n    raise ValueError('Could not cast {} to NumPy Array!'.format(v))\nreturn v"}
+    for name, body in want.items():
+        if name not in fns:
+            fail(f"TypedArray.{name} not found")
+        got = "\n".join(_src(st) for st in fns[name].body if not (isinstance(st, ast.Expr) and isinstance(st.value, ast.Constant)))
+        if got != body:
+            fail(f"TypedArray.{name} changed (an array field no longer holds exactly np.asarray(v, dtype=field dtype)): {got[:300]}")
+    meta = next((n for n in tree.body if isinstance(n, ast.ClassDef) and n.name == "ArrayMeta"), None)
+    if meta is None or "return type('Array', (TypedArray,), {'_dtype': dtype})" not in _src(meta):
+        fail("types.py: ArrayMeta.__getitem__ changed")
+
+
 def generate(repo):
+    check_typed_array(repo)
     models = schema_models(repo)
     forced = check_by_alias(repo)
     if not {"by_alias", "exclude_unset"} <= forced:
@@ -979,7 +1179,11 @@ def generate(repo):
     ftext, ft = gen_fieldtypes(models)
     ttext = gen_to_schema(repo)
     ktext = gen_schema_keys(repo)
+    mtext = gen_mol_init(repo)
+    xtext = gen_schema_extras(repo)
     gen = os.path.join(coqrun.COQ, "Gen")
+    coqrun.write_if_changed(os.path.join(gen, "SchemaExtras.v"), xtext)
+    coqrun.write_if_changed(os.path.join(gen, "MolGeomInit.v"), mtext)
     coqrun.write_if_changed(os.path.join(gen, "Schemas.v"), stext)
     coqrun.write_if_changed(os.path.join(gen, "FieldTypes.v"), ftext)
     coqrun.write_if_changed(os.path.join(gen, "ToSchemaGen.v"), ttext)
